@@ -283,7 +283,12 @@ def binding(chk, md):
         if chk.pid in ("C06", "C10", "C13"):
             chk.violation("Build modified the model it was given (a second build of the same model object gives another outcome)", {"model": md.m, "id": md.id})
     elif not obs["hook_consistent"]:
-        raise Infra("verif hook self-check failed on %s: the forced-order copy of the AssignWeights loop disagrees with the natural loop" % md.id)
+        # the forced-order copy of the AssignWeights loop disagrees with the natural loop (the loop was changed and the copy was not, or the
+        # outcome depends on state outside the run): forced orders say nothing about this tree - the natural runs are still runs of the
+        # real code and are judged; without a verdict from them the check ends as an infrastructure failure (chk.hook_void)
+        chk.notes.append("model %s: verif hook self-check failed, forced root orders are left out" % md.id)
+        chk.hook_void = True
+        obs["outcomes"] = [o for o in obs["outcomes"] if not o.get("forced")]
     for o in obs["outcomes"]:
         if real_key(o) not in md.impl:
             chk.drift.append({"model": md.id, "roots": o["roots"], "real": o["result"], "impl_outcomes": sorted({k[0] for k in md.impl})})
@@ -338,11 +343,20 @@ def trace_models(chk, pid, binary, sc, gen, d11, natural, maxperm):
                 t["events"] = oc["events"]
                 nevents += len(oc["events"])
             traces.append(t)
-    tf = sc.path("wg_traces.ndjson")
-    write_ndjson(tf, traces)
-    res = run_tlc("WGraphTrace", TRACE_CFG % {"devs": DEVS_CURRENT}, sc, data_files={"wg_traces.ndjson": tf}, timeout=3000)
-    if res.violated:
-        raise Infra("design-level invariant(s) %s violated on the Impl layer for a recorded trace\n%s" % (res.violated, res.tail[-1500:]))
+    # (TLC re-reads the trace file for every trace it starts - see II.3 - so the traces go to TLC in files of 100)
+    class _Acc:
+        records, distinct, generated, wall = [], 0, 0, 0.0
+    res = _Acc()
+    for c0 in range(0, len(traces), 100):
+        tf = sc.path("wg_traces.ndjson")
+        write_ndjson(tf, traces[c0:c0 + 100])
+        part = run_tlc("WGraphTrace", TRACE_CFG % {"devs": DEVS_CURRENT}, sc, data_files={"wg_traces.ndjson": tf}, timeout=3000)
+        if part.violated:
+            raise Infra("design-level invariant(s) %s violated on the Impl layer for a recorded trace\n%s" % (part.violated, part.tail[-1500:]))
+        res.records = res.records + part.records
+        res.distinct += part.distinct
+        res.generated += part.generated
+        res.wall += part.wall
     # outcome records of behaviours that passed every logged event; mismatches keep the longest matched prefix per model
     accepted = [r for r in res.records if r["rec"] != "outcome" or (r.get("evbad", 0) == 0 and r.get("evall", True))]
     mism = {}
@@ -532,6 +546,8 @@ def run(pid, tier):
         for md in allmodels[:2] + allmodels[-2:]:
             chk.sample({"model": md.m, "ideal_reasons": md.ideal["reasons"], "impl_outcomes": sorted({k[0] for k in md.impl}),
                         "real_outcomes": [{"result": o["result"], "roots": o["roots"], "count": o["count"]} for o in md.obs["outcomes"][:3]]})
+        if getattr(chk, "hook_void", False) and not chk.violations:
+            raise Infra("verif hook self-check failed: the forced-order copy of the AssignWeights loop disagrees with the natural loop (and the natural runs alone gave no verdict)")
         chk.assumptions += ["the abstract model -> protobuf conversion of the harness mirrors the shape the DSL transformer produces",
                             "root orders of graphs with more than 6 non-terminal nodes are sampled, not enumerated"]
         return chk.finish()
